@@ -320,7 +320,7 @@ QN = ['Z', 'Y', 'Voc', 'Isc']
 def run_oneport(chk, drv, L, state):
     rng = chk.rng
     quick = chk.tier == 'quick'
-    n_trees = 36 if quick else 240
+    n_trees = 48 if quick else 240
     max_depth = 4 if quick else 6
     max_leaves = 7 if quick else 12
     disagreements = state['disagreements']
@@ -370,6 +370,8 @@ def run_oneport(chk, drv, L, state):
         line = drv.ask1('op.line %s %s' % (fstr(s), toks))
         has_ic = tree.has_ic()
         has_fb = 'FB' in tree.kinds()
+        kk = set(tree.kinds())
+        mixed = bool(kk & {'V', 'I', 'dcV', 'dcI'}) and bool(kk & {'stepV', 'stepI', 'sV', 'sI'})
         nontrivial = (tOK or nOK) and tree.depth() >= 1
         chk.case((toks, s), nontrivial)
         chk.count('family', family + ('-illposed' if illposed else ''))
@@ -424,6 +426,8 @@ def run_oneport(chk, drv, L, state):
                     cause = 'cct-immittance-includes-ic'
                 elif q in ('Voc', 'Isc') and not icOK:
                     cause = 'ic-ignored-no-independent-source'
+                elif q in ('Voc', 'Isc') and mixed:
+                    cause = 'superposition-mixed-dc-transient'
                 else:
                     cause = 'routes-differ'
                 finding({'kind': 'oneport', 'cause': cause, 'quantity': q}, dict(replay, quantity=q),
@@ -438,7 +442,8 @@ def run_oneport(chk, drv, L, state):
                 if r != 'true':
                     cause = ('ferritebead-expansion' if has_fb else
                              'cct-immittance-includes-ic' if (route == 'cct' and has_ic) else
-                             'ic-ignored-no-independent-source' if not icOK else 'spec-line')
+                             'ic-ignored-no-independent-source' if not icOK else
+                             'superposition-mixed-dc-transient' if mixed else 'spec-line')
                     finding({'kind': 'oneport', 'cause': cause, 'route': route, 'form': 'thevenin'},
                             dict(replay, route=route, reported={'Z': fstr(Z), 'Voc': fstr(Voc)}),
                             '(Z, Voc) reported by the %s route is not the relation of the network' % route)
@@ -448,7 +453,8 @@ def run_oneport(chk, drv, L, state):
                 if r != 'true':
                     cause = ('ferritebead-expansion' if has_fb else
                              'cct-immittance-includes-ic' if (route == 'cct' and has_ic) else
-                             'ic-ignored-no-independent-source' if not icOK else 'spec-line')
+                             'ic-ignored-no-independent-source' if not icOK else
+                             'superposition-mixed-dc-transient' if mixed else 'spec-line')
                     finding({'kind': 'oneport', 'cause': cause, 'route': route, 'form': 'norton'},
                             dict(replay, route=route, reported={'Y': fstr(Y), 'Isc': fstr(Isc)}),
                             '(Y, Isc) reported by the %s route is not the relation of the network' % route)
@@ -579,7 +585,7 @@ def gen_twoport(rng, case):
 def run_twoport(chk, drv, L, state):
     rng = chk.rng
     quick = chk.tier == 'quick'
-    n_cases = 32 if quick else 160
+    n_cases = 40 if quick else 160
     disagreements = state['disagreements']
 
     def finding(key, replay, what):
@@ -826,6 +832,7 @@ def probes(chk, drv, L, state):
         ('BMatrix.Tsection', lambda: tp.BMatrix.Tsection(*imp)),
         ('LSectionAlt', lambda: tp.LSectionAlt(R(1), R(2))),
         ('BridgedTSection', lambda: tp.BridgedTSection(R(1), R(2), R(3), R(4))),
+        ('TwinTSection', lambda: tp.TwinTSection(R(1), R(2), R(3), R(4), R(5), R(6))),
         ('NetlistOpsMixin.Tparams', lambda: L.lcapy.Circuit(tp.LSection(R(1), R(2)).netlist()).Tparams(1, 0, 3, 2)),
     ]
     import sys as _sys
@@ -891,12 +898,15 @@ def run(chk, replay=None):
     run_twoport(chk, drv, L, state)
     disagreements = state['disagreements']
     chk.coverage['correspondence']['samples_of_disagreement'] = disagreements[:5]
-    if broken and state['counterexamples'] == 0 and not chk.known_seen:
+    # a broken obligation / correspondence is explained only by a fresh counterexample of this run
+    # (a KNOWN-FINDING explains nothing: its `_partial` theorems build on the unchanged tree)
+    fresh = len(chk.violations)
+    if broken and fresh == 0:
         for b in broken[:20]:
             chk.unexplained('broken-obligation', b, chk.coverage.get('build_log_tail', '')[-600:])
     elif broken:
         chk.coverage['broken_obligations_explained_by_counterexamples'] = True
-    if disagreements and state['counterexamples'] == 0:
+    if disagreements and fresh == 0:
         chk.unexplained('broken-correspondence', disagreements[0]['what'], disagreements[0])
 
 
